@@ -153,6 +153,9 @@ where
     /// This prevents excessive memory usage during bulk operations.
     #[inline]
     fn batch_limit_reached(&self) -> bool {
+        #[cfg(anydb_verif)]
+        #[allow(unreachable_code)]
+        return self.pushed_len() * Self::SIZE_OF_T >= crate::verif::max_cache_size();
         self.pushed_len() * Self::SIZE_OF_T >= MAX_CACHE_SIZE
     }
 
@@ -163,6 +166,8 @@ where
         T: Copy,
     {
         let batch_count = MAX_CACHE_SIZE / Self::SIZE_OF_T.max(1);
+        #[cfg(anydb_verif)]
+        let batch_count = crate::verif::max_cache_size() / Self::SIZE_OF_T.max(1);
 
         while self.len() < target_len {
             let count = (target_len - self.len()).min(batch_count);
